@@ -86,5 +86,6 @@ void guarded(guard_fn fn, void *arg);
 extern char *g_progress;   /* shared with the forked child: what it was doing (shown after "crash") */
 
 /* header helpers */
-void reseal(unsigned char *frag);     /* recompute metadata_chksum (zlib crc32) */
+void reseal(unsigned char *frag);
+void make_twin(unsigned char *frag);  /* the same header as an opposite-byte-order writer stores it (suites1.c) */     /* recompute metadata_chksum (zlib crc32) */
 #endif
